@@ -10,6 +10,9 @@ Lib/DecArith.vos Lib/DecArith.vok Lib/DecArith.required_vos: Lib/DecArith.v Lib/
 Lib/DecFacts.vo Lib/DecFacts.glob Lib/DecFacts.v.beautified Lib/DecFacts.required_vo: Lib/DecFacts.v Lib/Base.vo Lib/DecArith.vo
 Lib/DecFacts.vio: Lib/DecFacts.v Lib/Base.vio Lib/DecArith.vio
 Lib/DecFacts.vos Lib/DecFacts.vok Lib/DecFacts.required_vos: Lib/DecFacts.v Lib/Base.vos Lib/DecArith.vos
+Model/DutchV1.vo Model/DutchV1.glob Model/DutchV1.v.beautified Model/DutchV1.required_vo: Model/DutchV1.v Lib/Base.vo Lib/DecArith.vo
+Model/DutchV1.vio: Model/DutchV1.v Lib/Base.vio Lib/DecArith.vio
+Model/DutchV1.vos Model/DutchV1.vok Model/DutchV1.required_vos: Model/DutchV1.v Lib/Base.vos Lib/DecArith.vos
 Model/DutchV2.vo Model/DutchV2.glob Model/DutchV2.v.beautified Model/DutchV2.required_vo: Model/DutchV2.v Lib/Base.vo Lib/DecArith.vo
 Model/DutchV2.vio: Model/DutchV2.v Lib/Base.vio Lib/DecArith.vio
 Model/DutchV2.vos Model/DutchV2.vok Model/DutchV2.required_vos: Model/DutchV2.v Lib/Base.vos Lib/DecArith.vos
@@ -25,15 +28,18 @@ Proofs/DutchProofsClose.vos Proofs/DutchProofsClose.vok Proofs/DutchProofsClose.
 Proofs/DutchProofsPrice.vo Proofs/DutchProofsPrice.glob Proofs/DutchProofsPrice.v.beautified Proofs/DutchProofsPrice.required_vo: Proofs/DutchProofsPrice.v Lib/Base.vo Lib/DecArith.vo Lib/DecFacts.vo Model/DutchV2.vo
 Proofs/DutchProofsPrice.vio: Proofs/DutchProofsPrice.v Lib/Base.vio Lib/DecArith.vio Lib/DecFacts.vio Model/DutchV2.vio
 Proofs/DutchProofsPrice.vos Proofs/DutchProofsPrice.vok Proofs/DutchProofsPrice.required_vos: Proofs/DutchProofsPrice.v Lib/Base.vos Lib/DecArith.vos Lib/DecFacts.vos Model/DutchV2.vos
+Proofs/DutchProofsV1.vo Proofs/DutchProofsV1.glob Proofs/DutchProofsV1.v.beautified Proofs/DutchProofsV1.required_vo: Proofs/DutchProofsV1.v Lib/Base.vo Lib/DecArith.vo Lib/DecFacts.vo Model/DutchV1.vo Model/DutchV2.vo Proofs/DutchProofsPrice.vo
+Proofs/DutchProofsV1.vio: Proofs/DutchProofsV1.v Lib/Base.vio Lib/DecArith.vio Lib/DecFacts.vio Model/DutchV1.vio Model/DutchV2.vio Proofs/DutchProofsPrice.vio
+Proofs/DutchProofsV1.vos Proofs/DutchProofsV1.vok Proofs/DutchProofsV1.required_vos: Proofs/DutchProofsV1.v Lib/Base.vos Lib/DecArith.vos Lib/DecFacts.vos Model/DutchV1.vos Model/DutchV2.vos Proofs/DutchProofsPrice.vos
 Proofs/MarketProofs.vo Proofs/MarketProofs.glob Proofs/MarketProofs.v.beautified Proofs/MarketProofs.required_vo: Proofs/MarketProofs.v Lib/Base.vo Model/Market.vo
 Proofs/MarketProofs.vio: Proofs/MarketProofs.v Lib/Base.vio Model/Market.vio
 Proofs/MarketProofs.vos Proofs/MarketProofs.vok Proofs/MarketProofs.required_vos: Proofs/MarketProofs.v Lib/Base.vos Model/Market.vos
-Properties/C10.vo Properties/C10.glob Properties/C10.v.beautified Properties/C10.required_vo: Properties/C10.v Lib/Base.vo Lib/DecArith.vo Model/DutchV2.vo Proofs/DutchProofsPrice.vo Proofs/DutchProofsBid.vo Proofs/DutchProofsClose.vo
-Properties/C10.vio: Properties/C10.v Lib/Base.vio Lib/DecArith.vio Model/DutchV2.vio Proofs/DutchProofsPrice.vio Proofs/DutchProofsBid.vio Proofs/DutchProofsClose.vio
-Properties/C10.vos Properties/C10.vok Properties/C10.required_vos: Properties/C10.v Lib/Base.vos Lib/DecArith.vos Model/DutchV2.vos Proofs/DutchProofsPrice.vos Proofs/DutchProofsBid.vos Proofs/DutchProofsClose.vos
+Properties/C10.vo Properties/C10.glob Properties/C10.v.beautified Properties/C10.required_vo: Properties/C10.v Lib/Base.vo Lib/DecArith.vo Model/DutchV2.vo Proofs/DutchProofsPrice.vo Proofs/DutchProofsBid.vo Proofs/DutchProofsClose.vo Model/DutchV1.vo Proofs/DutchProofsV1.vo
+Properties/C10.vio: Properties/C10.v Lib/Base.vio Lib/DecArith.vio Model/DutchV2.vio Proofs/DutchProofsPrice.vio Proofs/DutchProofsBid.vio Proofs/DutchProofsClose.vio Model/DutchV1.vio Proofs/DutchProofsV1.vio
+Properties/C10.vos Properties/C10.vok Properties/C10.required_vos: Properties/C10.v Lib/Base.vos Lib/DecArith.vos Model/DutchV2.vos Proofs/DutchProofsPrice.vos Proofs/DutchProofsBid.vos Proofs/DutchProofsClose.vos Model/DutchV1.vos Proofs/DutchProofsV1.vos
 Properties/C17.vo Properties/C17.glob Properties/C17.v.beautified Properties/C17.required_vo: Properties/C17.v Lib/Base.vo Model/Market.vo Proofs/MarketProofs.vo
 Properties/C17.vio: Properties/C17.v Lib/Base.vio Model/Market.vio Proofs/MarketProofs.vio
 Properties/C17.vos Properties/C17.vok Properties/C17.required_vos: Properties/C17.v Lib/Base.vos Model/Market.vos Proofs/MarketProofs.vos
-Extract/Extract.vo Extract/Extract.glob Extract/Extract.v.beautified Extract/Extract.required_vo: Extract/Extract.v Lib/Base.vo Lib/DecArith.vo Model/DutchV2.vo Model/Market.vo
-Extract/Extract.vio: Extract/Extract.v Lib/Base.vio Lib/DecArith.vio Model/DutchV2.vio Model/Market.vio
-Extract/Extract.vos Extract/Extract.vok Extract/Extract.required_vos: Extract/Extract.v Lib/Base.vos Lib/DecArith.vos Model/DutchV2.vos Model/Market.vos
+Extract/Extract.vo Extract/Extract.glob Extract/Extract.v.beautified Extract/Extract.required_vo: Extract/Extract.v Lib/Base.vo Lib/DecArith.vo Model/DutchV1.vo Model/DutchV2.vo Model/Market.vo
+Extract/Extract.vio: Extract/Extract.v Lib/Base.vio Lib/DecArith.vio Model/DutchV1.vio Model/DutchV2.vio Model/Market.vio
+Extract/Extract.vos Extract/Extract.vok Extract/Extract.required_vos: Extract/Extract.v Lib/Base.vos Lib/DecArith.vos Model/DutchV1.vos Model/DutchV2.vos Model/Market.vos
